@@ -1080,11 +1080,11 @@ theorem cancel_cases (releases : Bool) (progs : List Prog) (s : St σ) (i : Nat)
   | none => left; rfl
   | some c =>
     cases hcur : c.cur with
-    | some l => left; rfl
+    | some l => left; simp [hcur]
     | none =>
       cases hop : opAt progs i c.pc with
-      | none => left; rfl
-      | some op => right; exact ⟨c, rfl, hcur, rfl⟩
+      | none => left; simp [hcur, hop]
+      | some op => right; exact ⟨c, rfl, hcur, by simp [hcur, hop]⟩
 
 /-- a cancelled waiter (that does not touch the lock) preserves the invariant -/
 theorem inv_cancel (progs : List Prog) {s : St σ} (h : Inv s) (i : Nat) : Inv (cancelWaiting false progs s i) := by
@@ -1154,7 +1154,7 @@ theorem sinv_cancel (D : Dev σ) (progs : List Prog) {s : St σ} (h : Inv s) (hs
       have hji : j ≠ i := by
         intro e; subst e; rw [hc] at hcj; cases hcj; rw [hcur] at hsj; simp at hsj
       simp only [orderOf, complete, hl, hcj] at hs
-      simp only [orderOf, complete, hl, Bool.false_eq_true, if_false, lookup_set hc, hji, hcj]
+      simp only [orderOf, complete, Bool.false_eq_true, if_false, lookup_set hc, hji, hcj]
       exact hs
 
 theorem sinv_runE (D : Dev σ) (progs : List Prog) (evs : List SEv) : SInv D progs (runE false true D progs evs) := by
